@@ -125,3 +125,29 @@ def _(v):
     v.prove("unicode", v.call(rxn.unicode, subst) == line("UNI1", "→", "OH-"))
     v.prove("html", v.call(rxn.html, subst) == line("HTM1", "&rarr;", "OH-"))
     v.prove("plain", v.call(rxn.string, subst) == line("H2O", "->", "OH-"))
+
+
+@harness("C13", "no_state_between_constructions", functions=["chempy.chemistry:Species.from_formula", "chempy.chemistry:Substance.from_formula"], kind="data")
+def _(v):
+    """names, composition and phase index depend on the formula and the arguments of THIS call only: arguments are not modified and nothing is
+    remembered from earlier constructions"""
+    from chempy.chemistry import Species, Substance
+    phases = ["(aq)"]
+    s1 = Species.from_formula("Na+(aq)", phases=phases)
+    v.prove("phases_argument_not_modified", phases == ["(aq)"] and s1.phase_idx == 1)
+    s2 = Species.from_formula("H2O(l)", phases=phases)
+    s3 = Species.from_formula("NaCl(s)", phases=phases)
+    v.prove("suffix_not_in_phases_selects_the_default_index", s2.phase_idx == 0 and s3.phase_idx == 0 and phases == ["(aq)"])
+    out = None
+    try:
+        Species.from_formula("CO2(g)", phases=phases, default_phase_idx=None)
+    except ValueError as e:
+        out = e
+    v.prove("no_default_and_unknown_suffix_is_refused", out is not None)
+    as_dict = {"(s)": 2, "(aq)": 5}
+    s4 = Species.from_formula("NaCl(s)", phases=as_dict)
+    v.prove("phases_mapping_not_modified", as_dict == {"(s)": 2, "(aq)": 5} and s4.phase_idx == 2)
+    f3 = Substance.from_formula("Fe", charge=3)
+    f0 = Substance.from_formula("Fe")
+    v.prove("same_formula_again", f3.composition == {26: 1, 0: 3} and f0.composition == {26: 1} and f0.charge == 0 and (f0.latex_name, f0.unicode_name, f0.html_name) == ("Fe", "Fe", "Fe")
+            and Substance.from_formula("Fe", charge=3).composition == {26: 1, 0: 3})
